@@ -425,5 +425,109 @@ theorem shapesEq_hole (X Y : List Blk) (k : Nat) (c : UInt8) (hc : c = 0x10 ∨ 
   rw [split_at X k _ hx, split_at Y k _ hy, h1]
   exact shapesEq_append (shapesEq_refl _) ⟨⟨rfl, by rw [if_pos hc]; trivial⟩, h2⟩
 
+/-! ## a companion run that does not execute linear data blocks -/
+
+theorem ready_ctlEq {a b : Uc} (h : CtlEq a b) : ready a = ready b := by
+  unfold CtlEq at h; rw [h]; rfl
+
+theorem CtlEq.trans {a b c : Uc} (h1 : CtlEq a b) (h2 : CtlEq b c) : CtlEq a c := by
+  unfold CtlEq at *
+  rw [h2, h1]; rfl
+
+/-- a 0x10 / 0x13 data block never changes the control state of an awake controller -/
+theorem feed_dtm_ctlEq (u : Uc) (c : UInt8) (hc : c = 0x10 ∨ c = 0x13) (data : List UInt8) (ha : u.asleep = false) :
+    CtlEq (u.feed (.c c data)) u := by
+  rcases hc with h | h
+  · subst h
+    have : u.feed (.c 0x10 data) = u.dtm 0 data := by unfold feed; simp [ha]
+    rw [this]
+    obtain ⟨p, q, r, hh⟩ := dtm_eq u 0 data
+    unfold CtlEq; rw [hh]; rfl
+  · subst h
+    have : u.feed (.c 0x13 data) = u.dtm 1 data := by unfold feed; simp [ha]
+    rw [this]
+    obtain ⟨p, q, r, hh⟩ := dtm_eq u 1 data
+    unfold CtlEq; rw [hh]; rfl
+
+/-- the companion run: a linear data block sent to an awake controller is skipped -/
+def compRun : Uc → List Blk → Uc
+  | e, [] => e
+  | e, .c c ps :: bs =>
+    if (c = 0x10 ∨ c = 0x13) ∧ e.asleep = false then compRun e bs else compRun (e.feed (.c c ps)) bs
+  | e, b :: bs => compRun (e.feed b) bs
+
+theorem compRun_sound : ∀ (bs bs0 : List Blk), ShapesEq bs bs0 → ∀ (r e : Uc), CtlEq r e →
+    CtlEq (bs.foldl feed r) (compRun e bs0)
+  | [], [], _, _, _, h => h
+  | x :: xs, y :: ys, hs, r, e, h => by
+    simp only [List.foldl_cons]
+    cases y with
+    | rst => simp only [compRun]; exact compRun_sound xs ys hs.2 _ _ (feed_ctlEq h hs.1)
+    | stray _ => simp only [compRun]; exact compRun_sound xs ys hs.2 _ _ (feed_ctlEq h hs.1)
+    | c c ps0 =>
+      cases x with
+      | rst => exact absurd hs.1 (by simp [ShapeEq])
+      | stray _ => exact absurd hs.1 (by simp [ShapeEq])
+      | c c' ps =>
+        obtain ⟨hcc, _⟩ := hs.1
+        subst hcc
+        simp only [compRun]
+        by_cases hk : (c' = 0x10 ∨ c' = 0x13) ∧ e.asleep = false
+        · rw [if_pos hk]
+          have ha : r.asleep = false := by
+            have : e.asleep = r.asleep := by unfold CtlEq at h; rw [h]; rfl
+            rw [← this]; exact hk.2
+          exact compRun_sound xs ys hs.2 _ e ((feed_dtm_ctlEq r c' hk.1 ps ha).trans h)
+        · rw [if_neg hk]
+          exact compRun_sound xs ys hs.2 _ _ (feed_ctlEq h hs.1)
+  | [], _ :: _, hs, _, _, _ => absurd hs (by simp [ShapesEq])
+  | _ :: _, [], hs, _, _, _ => absurd hs (by simp [ShapesEq])
+
+/-- `uc_e2e` with the skipping companion -/
+theorem uc_e2e_skip (blocks blocks0 : List Blk) (hs : ShapesEq blocks blocks0) (s0 e0 : Uc) (h0 : CtlEq s0 e0)
+    (k : Nat) (c : UInt8) (data : List UInt8) (hk : blocks[k]? = some (.c c data))
+    (hc : c = 0x10 ∨ c = 0x13)
+    (hsz : data.length = (planeU (planeOfCmd c) s0).size)
+    (hready : ready (compRun e0 (blocks0.take k)) = true)
+    (hpost : (blocks0.drop (k + 1)).all (fun b => !touches (planeOfCmd c) b) = true) :
+    (planeU (planeOfCmd c) (blocks.foldl feed s0)).toList = data := by
+  have hsplit := split_at blocks k _ hk
+  have hc1 : CtlEq ((blocks.take k).foldl feed s0) (compRun e0 (blocks0.take k)) :=
+    compRun_sound _ _ (ShapesEq.take k hs) _ _ h0
+  have hsz1 := run_sizes (blocks.take k) s0
+  generalize hr1 : (blocks.take k).foldl feed s0 = r1 at hc1 hsz1
+  generalize compRun e0 (blocks0.take k) = comp at hc1 hready
+  have hrun : blocks.foldl feed s0 = (blocks.drop (k + 1)).foldl feed (r1.feed (.c c data)) := by
+    rw [hsplit, List.foldl_append, List.foldl_cons, hr1, ← hsplit]
+  rw [hrun]
+  have hpost' : (blocks.drop (k + 1)).all (fun b => !touches (planeOfCmd c) b) = true := by
+    rw [all_untouched_shape _ (ShapesEq.drop (k + 1) hs)]; exact hpost
+  rw [run_untouched _ _ _ hpost']
+  simp only [ready, Bool.and_eq_true, Bool.not_eq_true'] at hready
+  unfold CtlEq at hc1
+  have ha : r1.asleep = false := by
+    have : comp.asleep = r1.asleep := by rw [hc1]; rfl
+    rw [← this]; exact hready.1
+  have hp : r1.partialOn = false := by
+    have : comp.partialOn = r1.partialOn := by rw [hc1]; rfl
+    rw [← this]; exact hready.2
+  rcases hc with h10 | h13
+  · subst h10
+    have hfeed : r1.feed (.c 0x10 data) = r1.dtm 0 data := by
+      unfold feed; simp [ha]
+    rw [hfeed]
+    have := (dtm_full r1 0 data hp (by
+      simp only [planeOfCmd, planeU, if_true] at hsz
+      simp only [if_true]; rw [hsz1.1]; exact hsz)).1
+    simpa [planeOfCmd, planeU] using this
+  · subst h13
+    have hfeed : r1.feed (.c 0x13 data) = r1.dtm 1 data := by
+      unfold feed; simp [ha]
+    rw [hfeed]
+    have := (dtm_full r1 1 data hp (by
+      simp only [planeOfCmd, planeU, if_neg (by decide : ¬ ((0x13 : UInt8) = 0x10)), if_neg (by decide : ¬ ((1 : Nat) = 0))] at hsz
+      simp only [if_neg (by decide : ¬ ((1 : Nat) = 0))]; rw [hsz1.2]; exact hsz)).1
+    simpa [planeOfCmd, planeU] using this
+
 end Uc
 end EpdVerif
